@@ -1,11 +1,31 @@
-(* C10 - Canonicalisation never changes what an expression means. *)
-From Coq Require Import List Bool.
-From Y0 Require Import Base.ListSet Dsl.Syntax Dsl.Build Dsl.Canon Proofs.DslP.
+(* C10 - Canonicalisation never changes what an expression means.
+   Meaning: [eval m e r] (Dsl/Sem.v) - the number the expression denotes in model m (a value for every probability term,
+   a finite range for every variable) under the value assignment r. The theorems hold for EVERY model satisfying the
+   laws of probability listed in Dsl/Laws.v [lawful], i.e. for every distribution.
+   Scope [wfe]: probability terms over simple variables (no intervention subscripts; value marks allowed) with distinct
+   names, sums over distinct bare variables, no Zero, no Q factor (canonicalize rejects Q factors). *)
+From Coq Require Import List Bool QArith.
+From Y0 Require Import Base.ListSet Dsl.Syntax Dsl.Build Dsl.Canon Dsl.Sem Dsl.Laws
+  Proofs.DslP Proofs.SumSimpP Proofs.CanonSemP.
 Import ListNotations.
+Open Scope Q_scope.
 
-(* The semantic statement needs the denotation of expressions (planned in Dsl/Sem.v; see DESIGN.md). Proved so far:
-   the decision made by canonical_expr_equal is exactly identity of the canonical forms, and the pre-repair
-   Sum.simplify is shown to drop ranges. The meaning clause is checked on every run by the exact-arithmetic oracle. *)
+Theorem C10_canonical_form_denotes_the_same_function (m : model) (ordering : list var) (e : expr) :
+  lawful m -> wfe e = true -> is_err (canonicalize false ordering e) = false ->
+  forall r, eval m (canonicalize false ordering e) r == eval m e r.
+Proof. exact (fun Hl => canonicalize_sound m Hl ordering e). Qed.
+
+Theorem C10_canonically_equal_expressions_are_semantically_equal (m : model) (a b : expr) :
+  lawful m -> wfe a = true -> wfe b = true ->
+  canonical_expr_equal a b = true ->
+  is_err (canonicalize false (sorted_variables (dedup (iter_variables a ++ iter_variables b))) a) = false ->
+  forall r, eval m a r == eval m b r.
+Proof. exact (fun Hl => canonical_expr_equal_sound m Hl a b). Qed.
+
+(* the laws are consistent: independent fair coins satisfy them *)
+Theorem C10_the_laws_have_a_model : lawful uniform.
+Proof. exact uniform_lawful. Qed.
+
 Theorem C10_canonical_equality_is_identity_of_canonical_forms a b :
   canonical_expr_equal a b = true <->
   let o := sorted_variables (dedup (iter_variables a ++ iter_variables b)) in
@@ -17,5 +37,15 @@ Theorem C10_old_sum_simplify_dropped_ranges_refuted :
   sum_simplify_gen false (EProb None [V 0; V 1] []) [V 0; V 1; V 2] = ESum EOne [V 2].
 Proof. exact sum_simplify_old_drops_ranges. Qed.
 
+(* the hypotheses are met by a non-trivial expression: Sum[B](P(B, A) * P(C | A)) / P(A), whose canonical form differs from it *)
+Example C10_not_vacuous :
+  let e := EFrac (ESum (EProd [EProb None [V 1; V 0] []; EProb None [V 2] [V 0]]) [V 1]) (EProb None [V 0] []) in
+  let o := [V 0; V 1; V 2] in
+  wfe e = true /\ is_err (canonicalize false o e) = false /\ expr_eqb (canonicalize false o e) e = false.
+Proof. vm_compute. auto. Qed.
+
+Print Assumptions C10_canonical_form_denotes_the_same_function.
+Print Assumptions C10_canonically_equal_expressions_are_semantically_equal.
+Print Assumptions C10_the_laws_have_a_model.
 Print Assumptions C10_canonical_equality_is_identity_of_canonical_forms.
 Print Assumptions C10_old_sum_simplify_dropped_ranges_refuted.
